@@ -307,6 +307,49 @@ func checkSerialiserLoops(w *World, r *Report, rel string, pick func(fn *ssa.Fun
 					r.Fail("seq.all-items", name, "early exit from the item loop", blockPos(b), "the item loop can be left before the list is exhausted without returning an error: the remaining items are not serialised", nil)
 				}
 			}
+			// no item skipped: when the loop writes (binary.Write / Buffer.Write / append of octets),
+			// some write dominates every back edge - a `continue` ahead of the writes drops an item
+			var writes []*ssa.BasicBlock
+			for b := range body {
+				for _, ins := range b.Instrs {
+					c, isCall := ins.(*ssa.Call)
+					if !isCall {
+						continue
+					}
+					if sc := c.Call.StaticCallee(); sc != nil {
+						switch sc.String() {
+						case "encoding/binary.Write", "(*bytes.Buffer).Write", "(*bytes.Buffer).WriteByte", "(*bytes.Buffer).ReadFrom":
+							writes = append(writes, b)
+						}
+					}
+					if bi, isB := c.Call.Value.(*ssa.Builtin); isB && bi.Name() == "append" {
+						writes = append(writes, b)
+					}
+				}
+			}
+			if len(writes) > 0 {
+				for b := range body {
+					isLatch := false
+					for _, sx := range b.Succs {
+						if sx == h {
+							isLatch = true
+						}
+					}
+					if !isLatch || b == h {
+						continue
+					}
+					dom := false
+					for _, wb := range writes {
+						if wb == b || wb.Dominates(b) {
+							dom = true
+						}
+					}
+					if !dom {
+						ok = false
+						r.Fail("seq.all-items", name, "item skipped", blockPos(b), "an iteration of the item loop can reach the next item without writing anything (a `continue` ahead of the writes): that item is not serialised although it is counted", nil)
+					}
+				}
+			}
 			if ok {
 				r.OK("seq.all-items")
 			}
